@@ -339,7 +339,9 @@ class Call(Selector):
                     prefix = (
                         "#loop_" if x.name.startswith("#loop_") else "#endloop_"
                     )
-                    if x.name[len(prefix) :] not in info:
+                    if x.name[len(prefix) :] not in getattr(
+                        info, "loopvars", info
+                    ):
                         problems.append(
                             f"{x.name} does not correspond to a loop variable of `{func}`"
                         )
